@@ -19,18 +19,19 @@ RULE = (
     "fault enumeration over every fixture under tests/files plus generated files with nested loads (MetaModule in MetaModule in a project, "
     "Sampler with an embedded effect, MetaModule holding a Sampler with effect; thorough: 24 more files from generated MetaModule / Sampler / project recipes): (a) clean load, (b) an OSError at read call k for every k "
     "(K counted on a clean run), (c) an exception at every chunk boundary j counted across nested loads, (d) truncation at every chunk "
-    "boundary and at byte offsets inside headers/payloads, (e) semantic failures (unknown STYP, invalid enum CVAL), (f) path loads of files that are empty, shorter than a chunk header, not SunVox files at all, or cut short; each for the strictness "
+    "boundary and at byte offsets inside headers/payloads, (e) semantic failures (unknown STYP, invalid enum CVAL), (f) path loads of files that are empty, shorter than a chunk header, not SunVox files at all, or cut short, (g) failing diagnostics: a logging handler on the rv logger that raises at the d-th record the load emits (D counted on a clean run) and warnings escalated to errors, on the file itself and on variants whose range controllers (top level and nested) are far out of range so that the lenient load really reports; each for the strictness "
     "flag initially True and False and through a stream and through a path. quick: (b),(c) complete for stream + flag True, every 7th point (plus the first four and the last) "
     "for the other three combinations, truncation at every chunk boundary; thorough: everything complete. distinct = (file, fault kind, "
     "position, flag, access); non-trivial = the injected fault fired and the load raised, or fired inside a nested load"
 )
 ASSUMPTIONS = [
     "files opened by the library from a path are observed by wrapping pathlib.Path.open from the check; chunk boundaries by wrapping rv.readers.reader.chunks",
+    "diagnostics are made to fail the way a user-installed raising logging.Handler / `-W error` would; the check does not require that the library emits any",
     "nested loads are counted by wrapping the read_sunvox_file names imported into rv.modules.metamodule / rv.modules.sampler (the wrapper calls the original)",
 ]
 REQUIRED_LABELS = {
-    "quick": ["read_fault_raised", "chunk_fault_raised", "fault_in_nested_load", "truncated", "semantic_failure", "path_access", "flag_initially_false", "path_bad_file"],
-    "thorough": ["read_fault_raised", "chunk_fault_raised", "fault_in_nested_load", "truncated", "semantic_failure", "path_access", "flag_initially_false"],
+    "quick": ["read_fault_raised", "chunk_fault_raised", "fault_in_nested_load", "truncated", "semantic_failure", "path_access", "flag_initially_false", "path_bad_file", "diagnostic_fault_raised", "warnings_as_errors", "lenient_load_with_out_of_range_values"],
+    "thorough": ["read_fault_raised", "chunk_fault_raised", "fault_in_nested_load", "truncated", "semantic_failure", "path_access", "flag_initially_false", "diagnostic_fault_raised", "warnings_as_errors", "lenient_load_with_out_of_range_values"],
 }
 
 
@@ -193,7 +194,7 @@ def one_load(ctx, ident, data, path, access, flag0, fault):
     info = {}
     try:
         with tracker:
-            with faults.counting_chunks(fail_at=pos if kind == "chunk" else None) as cstate:
+            with faults.counting_chunks(fail_at=pos if kind == "chunk" else None) as cstate, faults.failing_diagnostics(fail_at=pos if kind == "diag" else None, warnings_as_errors=(kind == "werror")) as dstate:
                 try:
                     if access == "path":
                         read_sunvox_file(path)
@@ -206,6 +207,9 @@ def one_load(ctx, ident, data, path, access, flag0, fault):
                         raise
                     raised = e
             info["chunks"] = cstate["n"]
+            info["diagnostics"] = dstate["n"]
+            info["diag_fired"] = dstate["fired"]
+            info["warnings"] = dstate["warnings"]
             info["chunk_fired"] = cstate["fired"]
             info["depth_at_fire"] = cstate["depth_at_fire"]
             info["nested_loads"] = cstate["nested_loads"]
@@ -323,6 +327,37 @@ def semantic_variants(data, depth=0):
     return out
 
 
+def out_of_range_variants(data, depth=0):
+    """(name, bytes) files the loader accepts leniently while reporting out-of-range values:
+    range controllers far outside their range, at the top level and inside nested containers."""
+    chunks = chunktools.parse(data)
+    out = []
+    info, types = c05.section_info(chunks)
+    spec = specmodel.load()
+    c2 = list(chunks)
+    done = 0
+    for i, (mod_i, ordinal) in enumerate(info):
+        t = types.get(mod_i)
+        if ordinal is None or t not in spec or done >= 4:
+            continue
+        ctls = spec[t].controllers
+        if ordinal < len(ctls) and ctls[ordinal].kind in ("range", "compact", "no_offset"):
+            c2[i] = (b"CVAL", struct.pack("<i", 0x7FFF0000 - done))
+            done += 1
+    if done:
+        out.append(("out_of_range_cvals", chunktools.build(c2)))
+    if depth < 2:
+        for i, (cid, payload) in enumerate(chunks):
+            if cid == b"CHDT" and payload[:4] in (b"SVOX", b"SSYN"):
+                inner = out_of_range_variants(payload, depth + 1)
+                if inner:
+                    c3 = list(chunks)
+                    c3[i] = (cid, inner[0][1])
+                    out.append(("nested%d[%s]" % (i, inner[0][0]), chunktools.build(c3)))
+                    break
+    return out
+
+
 def run_item(ctx, env, item):
     if item["src"] == "fixture":
         with open(item["path"], "rb") as f:
@@ -422,6 +457,33 @@ def run_item(ctx, env, item):
             if r is not None:
                 ctx.label("semantic_failure")
                 n_nt += 1
+    # diagnostics that fail: a logging handler that raises at the d-th record the load emits, and
+    # warnings escalated to errors, on the file itself and on variants with out-of-range values
+    for name, vb in [("", data)] + out_of_range_variants(data):
+        vid = ident + ("#" + name if name else "")
+        r0, inf0 = one_load(ctx, vid, vb, path, "stream", True, ("clean", None))
+        ctx.case()
+        D = inf0["diagnostics"]
+        if name:
+            ctx.label("lenient_load_with_out_of_range_values" if r0 is None else "out_of_range_variant_rejected")
+        if D:
+            ctx.label("load_emits_diagnostics")
+        ds = list(range(D)) if (thorough or D <= 6) else sorted({0, 1, 2, D // 2, D - 1})
+        for flag0 in (True, False):
+            for d in ds:
+                r, inf = one_load(ctx, vid, vb, path, "stream", flag0, ("diag", d))
+                ctx.case()
+                if inf["diag_fired"] and r is not None:
+                    ctx.label("diagnostic_fault_raised")
+                    n_nt += 1
+                elif inf["diag_fired"]:
+                    ctx.label("diagnostic_fault_swallowed")
+            r, inf = one_load(ctx, vid, vb, path, "stream", flag0, ("werror", None))
+            ctx.case()
+            ctx.label("warnings_as_errors")
+            if r is not None:
+                ctx.label("warnings_as_errors_raised")
+                n_nt += 1
     ctx.mark_nontrivial_count(ident, n_nt)
     ctx.sample({"file": ident, "read_calls": K, "chunk_boundaries_incl_nested": J, "nested_loads": info["nested_loads"], "nontrivial_faults": n_nt})
 
@@ -462,6 +524,9 @@ def replay(ctx, doc):
         elif r.get("fault") == "semantic":
             for name, vb in semantic_variants(data):
                 one_load(c2, r["file"], vb, path, "stream", r["flag_initially"], ("semantic", None))
+        elif r.get("fault") in ("diag", "werror") and "#" in r["file"]:
+            vb = dict(out_of_range_variants(data))[r["file"].split("#", 1)[1]]
+            one_load(c2, r["file"], vb, path, "stream", r["flag_initially"], (r["fault"], r["position"]))
         else:
             one_load(c2, r["file"], data, path, r["access"], r["flag_initially"], (r["fault"], r["position"]))
         if c2.failures:
